@@ -32,7 +32,7 @@ ASSUMPTIONS = ['at least one frame per trajectory (zero frames is outside the st
                'state counts >= 2 per feature for channel-capacity normalisation (the routine asserts it)',
                'floating tolerances for the algebraic laws: 1e-9 absolute / relative']
 REACH_EXPECTED = ['long_trajectory', 'team_ge_2', 'one_thread_per_feature', 'different_feature_counts', 'different_state_counts',
-                  'mixed_dtypes', 'self_counts', 'invalid_negative', 'invalid_too_large', 'invalid_length', 'pooled_trajectories',
+                  'mixed_dtypes', 'self_counts', 'invalid_negative', 'invalid_too_large', 'invalid_length', 'invalid_mixed_dtypes', 'pooled_trajectories',
                   'weighted_uniform', 'relabel_invariance', 'permutation_invariance', 'schedule_pair_compared']
 INTS = ('int8', 'int16', 'int32', 'int64', 'uint8', 'uint16', 'uint32', 'uint64')
 
@@ -332,18 +332,31 @@ def invalid(ctx, t):
     fa, fb = t.irange(1, 4), t.irange(1, 4)
     na, nb = t.irange(2, 4), t.irange(2, 4)
     signed = ('int8', 'int16', 'int32', 'int64')
-    what = t.choice(('negative', 'negative', 'too_large', 'length'))
+    what = t.choice(('negative', 'negative', 'too_large', 'too_large', 'length'))
     dt = t.choice(signed if what == 'negative' else INTS)
-    A = gen_features(t, nfr, fa, na, dt)
-    B = gen_features(t, nfr, fb, nb, dt)
     side = t.draw(2)
+    # the two sides may have different element types (joint_counts harmonises them); the invalid id sits on `side`
+    dts = [dt, dt]
+    if t.flag(1, 2):
+        dts[1 - side] = t.choice(INTS)
+        ctx.hit('invalid_mixed_dtypes')
+    A = gen_features(t, nfr, fa, na, dts[0])
+    B = gen_features(t, nfr, fb, nb, dts[1])
+    info = np.iinfo(dt)
+    nside = na if side == 0 else nb
     if what == 'negative':
         tgt = A if side == 0 else B
-        tgt[t.draw(nfr), t.draw(tgt.shape[1])] = -1 - t.draw(3)
+        # just below zero, or a valid id minus 2**8 / 2**16 (it would wrap into range if the array were narrowed)
+        cands = [-1 - t.draw(3)] + [v - 2 ** b for b in (8, 16) for v in (t.draw(nside),) if v - 2 ** b >= info.min]
+        tgt[t.draw(nfr), t.draw(tgt.shape[1])] = t.choice(cands)
         ctx.hit('invalid_negative')
     elif what == 'too_large':
         tgt = A if side == 0 else B
-        tgt[t.draw(nfr), t.draw(tgt.shape[1])] = (na if side == 0 else nb) + t.draw(3)
+        cands = [nside + t.draw(3)] + [v + 2 ** b for b in (8, 16) for v in (t.draw(nside),) if v + 2 ** b <= info.max]
+        cands = [c for c in cands if c <= info.max]
+        if not cands:
+            cands = [info.max]
+        tgt[t.draw(nfr), t.draw(tgt.shape[1])] = t.choice(cands)
         ctx.hit('invalid_too_large')
     else:
         if side == 0:
@@ -352,6 +365,8 @@ def invalid(ctx, t):
             B = B[:nfr - 1 - t.draw(min(2, nfr - 1))]
         ctx.hit('invalid_length')
     entry = t.choice(('kernel', 'joint_counts'))
+    if dts[0] != dts[1]:
+        entry = 'joint_counts'        # the kernel itself takes one element type
     T, dec = gomp_config(ctx, t, 0)
     ctx.scenario.update(kind='invalid', what=what, side=side, frames=[len(A), len(B)], features=[fa, fb], states=[na, nb],
                         dtype=dt, entry=entry, team=T, A=A[:8].tolist(), B=B[:8].tolist())
